@@ -234,12 +234,17 @@ impl Borrow<Key> for Item {
 
 pub struct Prio {
     pub v: i32,
+    /// identity of the value, ignored by Ord/Eq (like a payload of the priority)
+    pub tag: u8,
     id: u64,
 }
 impl Prio {
     #[inline]
     pub fn new(v: i32) -> Prio {
-        Prio { v, id: reg_new() }
+        Prio { v, tag: 0, id: reg_new() }
+    }
+    pub fn tagged(v: i32, tag: u8) -> Prio {
+        Prio { v, tag, id: reg_new() }
     }
 }
 impl std::fmt::Debug for Prio {
@@ -250,7 +255,7 @@ impl std::fmt::Debug for Prio {
 impl Clone for Prio {
     fn clone(&self) -> Prio {
         fault_point(C_CLONE);
-        Prio::new(self.v)
+        Prio::tagged(self.v, self.tag)
     }
 }
 impl Drop for Prio {
